@@ -9,6 +9,11 @@ Workload (harness-written PDE forms, recording solvers, recording observation ma
   observe   observe() fed directly with polynomial "solutions" (black box test of restriction/interpolation)
   model     PDEModel.forward / gradient around the above, several domain geometries and input representations
   shipped   the generic oracles applied to the PDE objects inside testproblem.Heat1D / Poisson1D
+  history   one PDEModel object used repeatedly: parameter buffer updated in place between forwards/gradients, observation
+            settings (grid_obs, grid_sol, observation_map, method) changed between two calls with equal input, returned
+            array edited by the caller; inputs must stay untouched, arrays handed out earlier must not change
+  dtype     (axis of steady/time) int / bool / float32 / python-list initial conditions, sources, right-hand sides,
+            integer parameters, integer time grids and space grids - the oracles hold in float64
   misc      spelling of `method`, grids that are too short to interpolate
 Monitors: recording PDE_form (which (p, t) were assembled, in which order), recording linear solver (the system it
   was handed, the kwargs, what it returned), recording observation map (what it was handed).
@@ -43,11 +48,13 @@ REQUIRED_COUNTERS = {
     "quick": {"steady_residual_checked": 90, "euler_levels_checked": 1400, "be_solver_systems_checked": 900,
               "observation_compared": 220, "coinciding_points_checked": 4000, "polynomial_reproduction_checked": 250,
               "model_forward_compared": 280, "model_gradient_compared": 40, "info_passthrough_checked": 170,
-              "assembly_schedule_checked": 130, "refusal_observed": 25},
+              "assembly_schedule_checked": 130, "refusal_observed": 25, "history_forward_compared": 180,
+              "input_unchanged_checked": 220, "nonfloat_variant_levels_checked": 900, "nonfloat_variant_steady_checked": 60},
     "thorough": {"steady_residual_checked": 1700, "euler_levels_checked": 25000, "be_solver_systems_checked": 18000,
                  "observation_compared": 4000, "coinciding_points_checked": 80000, "polynomial_reproduction_checked": 2800,
                  "model_forward_compared": 4500, "model_gradient_compared": 600, "info_passthrough_checked": 3400,
-                 "assembly_schedule_checked": 2500, "refusal_observed": 500},
+                 "assembly_schedule_checked": 2500, "refusal_observed": 500, "history_forward_compared": 1400,
+                 "input_unchanged_checked": 1800, "nonfloat_variant_levels_checked": 18000, "nonfloat_variant_steady_checked": 1200},
 }
 BUDGET_S = {"quick": 240.0, "thorough": 1500.0}
 
